@@ -155,6 +155,26 @@ type MutexModel struct {
 	owner  *thread
 	vc     VC
 	Name   string
+	epoch  uint64
+}
+
+// epoch counts executions: package-level mutexes of the code under test
+// outlive an execution, so their model (held flag, release clock) is reset
+// lazily the first time they are used in a new epoch; otherwise a stale
+// clock would create false happens-before edges and a lock left held by an
+// aborted execution would block the next one.
+var epoch atomic.Uint64
+
+// NewEpoch starts a new execution epoch (called before every Setup).
+func NewEpoch() { epoch.Add(1) }
+
+func (m *MutexModel) sync() {
+	if e := epoch.Load(); m.epoch != e {
+		m.epoch = e
+		m.Locked = false
+		m.owner = nil
+		m.vc = VC{}
+	}
 }
 
 type PointRec struct {
@@ -255,6 +275,7 @@ func WaitUntil(what string, cond func() bool) {
 
 // Lock models sync.Mutex.Lock on m.
 func Lock(m *MutexModel, what string) {
+	m.sync()
 	s := sched
 	if !Controlled() {
 		if m.Locked {
@@ -276,6 +297,7 @@ func Lock(m *MutexModel, what string) {
 }
 
 func TryLock(m *MutexModel, what string) bool {
+	m.sync()
 	s := sched
 	if !Controlled() {
 		if m.Locked {
@@ -296,6 +318,7 @@ func TryLock(m *MutexModel, what string) bool {
 
 // Unlock models sync.Mutex.Unlock on m.
 func Unlock(m *MutexModel, what string) {
+	m.sync()
 	s := sched
 	if s != nil && s.aborting {
 		m.Locked = false
@@ -394,6 +417,7 @@ func (s *scheduler) enabled() []*thread {
 		}
 		switch t.kind {
 		case opLock:
+			t.mu.sync()
 			if t.mu.Locked {
 				return
 			}
